@@ -137,7 +137,7 @@ def main():
     scalars["wrath_marker_set"] = lit(wenc, r"fn\s+set_large_header\s*\([^)]*\)\s*->\s*u8\s*\{\s*v\s*\|\s*(\w+)")
     scalars["wrath_marker_clear"] = lit(wdec, r"fn\s+clear_large_header\s*\([^)]*\)\s*->\s*u8\s*\{\s*v\s*&\s*(\w+)")
     scalars["wrath_marker_test"] = lit(wdec, r"fn\s+large_header\s*\([^)]*\)\s*->\s*bool\s*\{\s*v\s*&\s*(\w+)\s*!=\s*0")
-    scalars["pin_ascii_offset"] = lit(pin, r"\*b\s*\+=\s*(\w+)\s*;")
+    scalars["pin_ascii_offset"] = lit(pin, r"\*\w+\s*\+=\s*(\w+)\s*;")
     scalars["rc4_state_size"] = lit(rc4, r"state\s*:\s*\[u8;\s*(\w+)\]")
 
     pinned_path = os.path.join(os.path.dirname(os.path.abspath(__file__)), "consts_pinned.json")
